@@ -518,4 +518,14 @@ example :
       1 512 (some 1024) 0)).runT 1 [.burst (.wake 4) [3], .dropData 0, .tick 2, .burst (.fire 0) [5]]).isSome = true := by
   decide +kernel
 
+/-- the invariants `LInv`, `TInv` that `fair_run_facts`, `timed_run_facts` assume hold of the initial state of that
+flow (and hence of everything reachable from it: `TcpLive.reach_LInv`, `TcpLive.tbreach_TInv`) -/
+example : LInv 1024 (Loop.init (Sender.init .reno ({ (TCPCubic.defaults : CCState ℚ) with mss := 512, cwnd := 512, ssthresh := 65535 })
+      1 512 (some 1024) 0)) ∧
+    TInv 1024 (TLoop.init (Sender.init .reno ({ (TCPCubic.defaults : CCState ℚ) with mss := 512, cwnd := 512, ssthresh := 65535 })
+      1 512 (some 1024) 0)) := by
+  have f := fresh_init .reno ({ (TCPCubic.defaults : CCState ℚ) with mss := 512, cwnd := 512, ssthresh := 65535 }) 1 512 1024 0
+    ⟨by norm_num, by norm_num, by norm_num, fun h => by cases h⟩ (by norm_num) (by norm_num) (by norm_num) ⟨2, rfl⟩ (by norm_num)
+  exact ⟨LInv_init f, TInv_init f⟩
+
 end C16
